@@ -224,6 +224,11 @@ FIXED = [
     ([("S", ("D",)), ("D", ()), ("D", ("D", "A")), ("A", ("a", "B", "C", "c")), ("B", ("b",)), ("C", ("b", "a")), ("C", ("D2",)) if False else ("C", ())], "S", False),
     ([("S", ("A", "B", "C", "c")), ("A", ("a",)), ("B", ("b",)), ("C", ("D",)), ("D", ())], "S", False),
     ([("S", ("A", "B", "c")), ("A", ("a",)), ("B", ("C", "D")), ("C", ()), ("D", ()), ("D", ("b",))], "S", False),
+    # nullable, directly left-recursive lists behind / between other nonterminals (FIRST of a left-recursive nullable symbol)
+    ([("S", ("H", "L")), ("H", ("a",)), ("L", ()), ("L", ("L", "b"))], "S", False),
+    ([("S", ("H", "L", "T")), ("H", ("a",)), ("L", ()), ("L", ("L", "b")), ("T", ("c",)), ("T", ())], "S", False),
+    ([("S", ("L", "H")), ("H", ("a",)), ("L", ()), ("L", ("L", "b", "c"))], "S", False),
+    ([("S", ("H", "M")), ("H", ("a",)), ("H", ("H", "c")), ("M", ("L",)), ("L", ()), ("L", ("L", "b"))], "S", False),
 ]
 
 
